@@ -1,5 +1,6 @@
 import CifModel.Lemmas.BufScanSim
 import CifModel.Lemmas.LexerTok
+import CifModel.Lemmas.LexerStream
 /-
   Lemmas/BufScanTok — next_token at buffer level (Model.BufScan.stepTokB / tokLoopB / nextTokenB) simulates the lexer model's
   next_token (Model.Lexer.stepTok / tokLoop / nextToken); whole token streams.
@@ -481,3 +482,114 @@ theorem tokLoopB_sim (dia : Dialect) (mf : Nat) : ∀ (fuel : Nat) (s : BS) (aw 
       rw [h2] at this
       exact List.eq_nil_of_length_eq_zero this
     exact tokIter_sim dia mf fuel aw _ s.line s.col ih g0 htext0 (by simp [SB.tvalueOffset]) rfl rfl rfl hf
+
+/-! ### next_token as a whole, token streams -/
+
+/-- the buffer-level scanner between two tokens (after CONSUME_TOKEN) against the lexer model's scanner state -/
+structure Abs (mf : Nat) (s : BS) (sc : Scan) : Prop where
+  good : Good mf s
+  cons : s.sb.textStart = s.sb.next
+  rem : s.remaining = sc.rest
+  line : s.line = sc.line
+  col : s.col = sc.col
+  ty : s.ttype = sc.lastType
+
+def RelNT (mf : Nat) (s' : BS) (r : Tok × Scan) : Prop :=
+  Good mf s' ∧ s'.tok = r.1 ∧ s'.remaining = r.2.rest ∧ s'.line = r.2.line ∧ s'.col = r.2.col ∧ s'.ttype = r.2.lastType
+
+theorem nextTokenB_sim (dia : Dialect) (mf : Nat) (s : BS) (sc : Scan) (a : Abs mf s sc) :
+    Sim (RelNT mf) (nextTokenB dia mf s) (nextToken dia sc) := by
+  intro pol log
+  rw [nextToken_eq]
+  unfold nextTokenB
+  have hm := a.good.measure_lt_fuelOf
+  have hlt : s.remaining.length < fuelOf s := by simp only [BS.measure] at hm; omega
+  have h := tokLoopB_sim dia mf (fuelOf s) s (afterWsOf s.ttype) s.ttype a.good a.cons hlt pol log
+  rw [a.rem, a.line, a.col, a.ty] at h
+  rw [tokLoop_fuel dia pol (fuelOf s) (sc.rest.length + 1) _ ⟨sc.rest, sc.line, sc.col⟩ log (by rw [← a.rem]; exact hlt) (by simp)] at h
+  rw [a.ty]
+  cases h1 : tokLoopB dia mf (fuelOf s) s (afterWsOf sc.lastType) sc.lastType pol log with
+  | ok s' l =>
+    cases h2 : tokLoop dia (sc.rest.length + 1) (afterWsOf sc.lastType) ⟨sc.rest, sc.line, sc.col⟩ pol log with
+    | ok tp l' =>
+      rw [h1, h2] at h
+      obtain ⟨t, p⟩ := tp
+      obtain ⟨e, r⟩ := h
+      exact ⟨e, r.good, r.tok, r.rem, r.line, r.col, by have := congrArg Tok.ty r.tok; exact this⟩
+    | abort rv l' => rw [h1, h2] at h; exact h.elim
+  | abort rv l =>
+    cases h2 : tokLoop dia (sc.rest.length + 1) (afterWsOf sc.lastType) ⟨sc.rest, sc.line, sc.col⟩ pol log with
+    | ok tp l' => rw [h1, h2] at h; exact h.elim
+    | abort rv' l' => rw [h1, h2] at h; exact h
+
+theorem tokensLoopB_sim (dia : Dialect) (mf : Nat) (pol : Policy) : ∀ (fuel : Nat) (s : BS) (sc : Scan) (recs : List Rec) (toks : List Tok)
+    (log : List Report), Abs mf s sc → recs.map (·.tok) = toks →
+    (tokensLoopB dia mf pol fuel s recs log).1.map (·.tok) = (tokensLoop dia pol fuel sc toks log).1 ∧
+    (tokensLoopB dia mf pol fuel s recs log).2 = (tokensLoop dia pol fuel sc toks log).2 := by
+  intro fuel
+  induction fuel with
+  | zero =>
+    intro s sc recs toks log a hm
+    simp only [tokensLoopB, tokensLoop]
+    exact ⟨by rw [← hm, List.map_reverse], trivial⟩
+  | succ fuel ih =>
+    intro s sc recs toks log a hm
+    have h := nextTokenB_sim dia mf s sc a pol log
+    simp only [tokensLoopB, tokensLoop]
+    cases h1 : nextTokenB dia mf s pol log with
+    | ok s' l =>
+      cases h2 : nextToken dia sc pol log with
+      | ok tp l' =>
+        rw [h1, h2] at h
+        obtain ⟨t, sc'⟩ := tp
+        obtain ⟨e, g', r1, r2, r3, r4, r5⟩ := h
+        subst e
+        have hty : s'.ttype = t.ty := congrArg Tok.ty r1
+        simp only [hty]
+        have hm' : (s'.toRec :: recs).map (·.tok) = t :: toks := by
+          simp only [List.map_cons, hm]
+          have : s'.toRec.tok = t := r1
+          rw [this]
+        by_cases hend : t.ty = .end_
+        · simp only [hend, if_true]
+          exact ⟨by rw [← hm', List.map_reverse], trivial⟩
+        · simp only [hend, if_false]
+          have cg := consumeToken_good g'
+          exact ih (consumeToken s') sc' _ _ l ⟨cg.1, cg.2.2, cg.2.1.trans r2, r3, r4, r5⟩ hm'
+      | abort rv l' => rw [h1, h2] at h; exact h.elim
+    | abort rv l =>
+      cases h2 : nextToken dia sc pol log with
+      | ok tp l' => rw [h1, h2] at h; exact h.elim
+      | abort rv' l' =>
+        rw [h1, h2] at h
+        obtain ⟨e1, e2⟩ := h
+        subst e1; subst e2
+        exact ⟨by rw [← hm, List.map_reverse], rfl⟩
+
+/-- with more fuel than remaining units the token stream does not depend on the fuel -/
+theorem tokensLoop_fuel (dia : Dialect) (pol : Policy) : ∀ (f1 f2 : Nat) (s : Scan) (toks : List Tok) (log : List Report),
+    s.rest.length < f1 → s.rest.length < f2 → tokensLoop dia pol f1 s toks log = tokensLoop dia pol f2 s toks log := by
+  intro f1
+  induction f1 with
+  | zero => intro f2 s toks log h; omega
+  | succ f1 ih =>
+    intro f2 s toks log h1 h2
+    cases f2 with
+    | zero => omega
+    | succ f2 =>
+      simp only [tokensLoop]
+      cases hn : nextToken dia s pol log with
+      | abort rv l => rfl
+      | ok tp l =>
+        obtain ⟨t, s'⟩ := tp
+        simp only []
+        by_cases hend : t.ty = .end_
+        · simp only [hend, if_true]
+        · simp only [hend, if_false]
+          obtain ⟨p, hl, hs⟩ := nextToken_ok_inv hn
+          have hp := tokLoop_progress dia pol _ _ _ _ _ _ _ (by simp) hl
+          rcases hp with ⟨he, _, _⟩ | ⟨_, _, hlt⟩
+          · exact absurd he hend
+          · subst hs
+            simp only [] at hlt
+            exact ih f2 _ _ l (by show p.rest.length < f1; omega) (by show p.rest.length < f2; omega)
